@@ -43,9 +43,9 @@ POLYGONS = [
 ]
 LONG_BASELINE = [[10 + 8 * k, 50 + (k % 3)] for k in range(12)]                                   # 12 points
 WEDGE_POLYGON = [[10, 45], [98, 20], [98, 70], [10, 55]]                                           # line height grows from 10 to 50 px
-HEIGHTS = [[10, 3], [7.26, 2.04], [7.25, 2.05], 'f32', None, [0, 0], [0.04, 0.02], [12.5, 0]]      # incl. zero / sub-precision heights (present, not absent)
+HEIGHTS = [[10, 3], [7.26, 2.04], [7.25, 2.05], 'f32', None, [0, 0], [0.04, 0.02], [12.5, 0], [14.0, -2.0], [12.3, -0.04]]      # incl. zero / sub-precision / negative heights (present, not absent)
 TEXTS = [None, '', 'abc', '<&>"\'', ' lead', 'trail ', 'a  b', 'a\tb', 'a\nb', 'a\rb', 'a b', 'é', 'שלום', 'مرحبا',
-         '\U0001F600\U00020000', ']]>', '�\x85 ', ' ', '\u00a0\u3000', ' \t ']      # ... and transcriptions made of white space only
+         '\U0001F600\U00020000', ']]>', '�\x85 ', ' ', '\u00a0\u3000', ' \t ', '&lt;x&#65;&amp;amp; &nbsp;']      # ... and transcriptions made of white space only
 CONFS = [None, 0, 1, 0.12345, 0.9995, 1e-9]
 INDEXES = [None, 7, 0]
 RTYPES = [None, 'paragraph']
